@@ -27,6 +27,8 @@ CLAIMED = {
             "derived converters get the default delimiter ':' (as in the code); inputs use ':' in the generated cases"),
     "C17": ("6 C17", "PARTIAL. Proved: the handler logic shared by both frameworks -- C17_response (every well-formed request gets the specified response), C17_known (known prefix or synonym: 302 to expand of the CURIE, split at the first delimiter, identifiers with '/' or the delimiter passed whole), C17_unknown (422); FAILURE_CODE tied by a generated obligation. Not modelled: Werkzeug / Starlette routing, percent-decoding, Location quoting -- these are exercised by driving the real in-process Flask client and Starlette TestClient on the same requests and comparing both with each other and with the model.",
             "the route contract (non-empty slash-free prefix, non-empty path identifier) is an assumption about the web frameworks validated only by the run"),
+    "C18": ("6 C18", "PARTIAL. Proved: C18_answers / C18_answers_expand_all (the triples oracle yields exactly the syntactically valid members of expand_all(compress(u)); nothing for unrecognised URIs or other predicates) and C18_header (handle_header = highest-q supported-or-synonym media type, first listed on ties, default SPARQL XML; via correctness of the stable descending sort, C18_sort_first); the content-type tables are tied by generated obligations. Not modelled: rdflib's SPARQL parser / evaluator / VALUES re-ordering, serialisers, Flask / FastAPI -- exercised by issuing real SPARQL four ways (?s / ?o bound x VALUES inside / after WHERE) through graph.query, Flask GET+POST and FastAPI GET and comparing the bindings and the Content-Type.",
+            "FastAPI POST is not exercisable in this sandbox (python-multipart missing); invariance under optional whitespace is checked by the run (OWS-rich generated headers), not yet a theorem; q-values with at most 3 decimals"),
 }
 NOT_YET = {}
 
